@@ -1336,6 +1336,11 @@ class H2Connection:
             # the window in this case.
             stream = None
 
+        if self.state_machine.state == ConnectionState.CLOSED:
+            # A closed connection emits nothing but GOAWAY: there is no
+            # WINDOW_UPDATE left to send, so no window is re-opened either.
+            return
+
         frames = []
 
         conn_manager = self._inbound_flow_control_window_manager
